@@ -70,7 +70,7 @@ Inductive cpc :=
 | PCb1 (c : nat) | PCb2 (c : nat) | PCb3 (c : nat)
 | PCb4 (c : nat) (chState : Z)
 | PCb4b (c : nat) (chState : Z) (lo : Z)
-| PCb5 (c : nat) (updateTo : Z)
+| PCb5 (c : nat) (chState : Z) (updateTo : Z)
 | PCb6
 | PAd1 (c : nat) | PAd2 (c : nat)
 | PConn.
@@ -104,9 +104,9 @@ Definition ctstep (s : cshared) (p : cpc) (arg : Z) : option (cshared * cpc) :=
   | PCb4b c chState lo =>
       if (lo <=? arg) && (arg <=? minstate s) then
         let u := update_to arg chState in
-        if 0 <? u then Some (s, PCb5 c u) else Some (s, CDone oCbDone)
+        if 0 <? u then Some (s, PCb5 c chState u) else Some (s, CDone oCbDone)
       else None
-  | PCb5 c u =>
+  | PCb5 c _ u =>                  (* chState is dead here in the repaired code; the pinned variant (Model/ClosePinned.v) tests it *)
       if chst s <? u then Some (set_chst s u, if u =? hCl then PCb6 else CDone oCbDone)
       else Some (s, CDone oCbDone)
   | PCb6 => Some (set_closed s (g_closed s + 1), CDone oCbDone)
@@ -178,7 +178,7 @@ Definition cpc_class (p : cpc) : Z :=
   | PCl2 _ _ => 1      (* chan.Close.afterUnlock, and again before every c.close() of the loop *)
   | PCb1 _ => 2        (* chan.closeStateChange.enter *)
   | PCb4 _ _ => 3      (* chan.closeStateChange.afterRead *)
-  | PCb5 _ _ => 4      (* chan.closeStateChange.afterMinState with an update to apply *)
+  | PCb5 _ _ _ => 4     (* chan.closeStateChange.afterMinState with an update to apply *)
   | _ => 64
   end.
 
